@@ -2,6 +2,7 @@
    What is proved: every piece of hclrs-authored code around the LALRPOP automaton is total in
    the model - the Rust code's panics (unwrap, assert, slicing, arithmetic) are explicit error
    values of the model, and the theorems say they are unreachable. *)
+From HclV Require Diag DiagSpec DiagProofs.
 From HclV Require Import Base Yo Region RegionSpec RegionProofs Graph GraphSpec GraphProofs
                          Expr ExprRules ExprRulesProofs YoSpec YoProofs
                          Machine Build BuildSpec Lexer Parser LexParseSpec Generated FrontTotalSpec FrontTotalProofs.
@@ -116,3 +117,46 @@ Theorem C13_front_end_total :
        (exists es, build_program f gen_fixed is_lower is_upper stmts = Err es /\ es <> [] /\ user_errors es)).
 Proof. exact front_end_total_holds. Qed.
 Print Assumptions C13_front_end_total.
+
+(* ---- "... including while rendering the diagnostics themselves" (Diag.v / DiagSpec.v /
+   DiagProofs.v: an executable model of Error::format_for_contents, errors.rs, whose text is
+   compared with the real renderer's on every rejected program of the checks) ------------------- *)
+(* rendering an error fails (= the Rust renderer would panic: slicing, indexing, unwrap) exactly
+   when the error is not [renderable]: a mux error with fewer widths than options, an
+   ExtraToken / UnrecognizedToken location off a character boundary or beyond the text, a
+   malformed expected-token string.  Everything else renders unconditionally. *)
+Theorem C13_rendering_fails_exactly_when_not_renderable :
+  DiagSpec.stmt_render_total /\ DiagSpec.stmt_render_total_converse /\ DiagSpec.stmt_render_all_total.
+Proof.
+  split; [exact DiagProofs.render_total_holds |].
+  split; [exact DiagProofs.render_total_converse_holds | exact DiagProofs.render_all_total_holds].
+Qed.
+Print Assumptions C13_rendering_fails_exactly_when_not_renderable.
+(* what the front end hands to the renderer is renderable: token and parser spans of a valid UTF-8
+   text lie inside it on character boundaries, also at end of input; LALRPOP's expected-token
+   strings (the 36 observed) are well formed *)
+Theorem C13_front_end_locations_are_renderable :
+  DiagSpec.stmt_token_offsets_on_boundaries /\ DiagSpec.stmt_token_locations_renderable /\
+  DiagSpec.stmt_parser_spans_on_boundaries /\ DiagSpec.stmt_lalrpop_terminals_ok /\
+  DiagSpec.stmt_format_token_list_total.
+Proof.
+  split; [exact DiagProofs.token_offsets_on_boundaries_holds |].
+  split; [exact DiagProofs.token_locations_renderable_holds |].
+  split; [exact DiagProofs.parser_spans_on_boundaries_holds |].
+  split; [exact DiagProofs.lalrpop_terminals_ok_holds | exact DiagProofs.format_token_list_total_holds].
+Qed.
+Print Assumptions C13_front_end_locations_are_renderable.
+(* "at least one 'error:' diagnostic ... never reports an internal error": every rendered error
+   begins with "error: ", consists of whole lines beginning with "error: " or seven blanks plus
+   region blocks, ends with a line feed; the words "Internal parser error" / "parser bug" are
+   written for the (never constructed) variant InternalParserErrorNear only *)
+Theorem C13_rendered_text_shape :
+  DiagSpec.stmt_render_starts_with_error /\ DiagSpec.stmt_region_text_shape /\ DiagSpec.stmt_render_all_blocks /\
+  DiagSpec.stmt_no_internal_error_text /\ DiagSpec.stmt_internal_error_text_present.
+Proof.
+  split; [exact DiagProofs.render_starts_with_error_holds |].
+  split; [exact DiagProofs.region_text_shape_holds |].
+  split; [exact DiagProofs.render_all_blocks_holds |].
+  split; [exact DiagProofs.no_internal_error_text_holds | exact DiagProofs.internal_error_text_present_holds].
+Qed.
+Print Assumptions C13_rendered_text_shape.
